@@ -1,6 +1,8 @@
 """C07: histories of create / save / get_recording / get_recording_metadata on the three REAL cassettes
 (in-memory; file-based in a scratch directory under /tmp that is removed afterwards; S3 through the real
-S3BasicFacade over the fake bucket).  uuid1 and the S3 clock are deterministic fakes.  Values may share
+S3BasicFacade over the fake bucket).  uuid1 and the S3 clock are deterministic fakes.  A `bulk` op is a run of n create+save
+calls of other recordings (long histories); cases with "names": "count" report the number of stored names after every call
+instead of the names.  Values may share
 sub-objects (pool entries referenced by {"t":"ref","n":k})."""
 import datetime
 import os
@@ -20,10 +22,12 @@ _n = [0]
 class FakeUuid(object):
     def __init__(self):
         self.n = 0
+        self.low_digit_first = False      # (bulk ops: like uuid1, whose hex text starts with the fastest moving field)
 
     def uuid1(self):
         self.n += 1
-        return types.SimpleNamespace(hex='%032x' % self.n)
+        h = '%032x' % self.n
+        return types.SimpleNamespace(hex=h[::-1] if self.low_digit_first else h)
 
 
 def build(j, pool):
@@ -151,6 +155,25 @@ def run_c07(case):
                     except Exception as ex:
                         o["res"] = exn_name(ex, saving=True)
                         o["msg"] = str(ex)[:100]
+                elif k == "bulk":
+                    # a run of n saves of OTHER recordings (created on this cassette, one small datum each): the long
+                    # history between the save of a recording and its fetch; reported as a whole
+                    fmt = "%s/20200227/%s" if kind == "s3" else "%s/%s"
+                    o["first"] = fu.n + 1
+                    ids, irregular = [], False
+                    fu.low_digit_first = True
+                    try:
+                        for i in range(op["n"]):
+                            rec = cas.create_new_recording(op["cat"])
+                            irregular = irregular or rec.id != fmt % (op["cat"], ('%032x' % fu.n)[::-1])
+                            ids.append(rec.id)
+                            rec.set_data("k", i)
+                            cas.save_recording(rec)
+                    finally:
+                        fu.low_digit_first = False
+                    o["n_ok"] = len(ids)
+                    if irregular:
+                        o["ids"] = ids
                 elif k == "get":
                     rec = view(op).get_recording(op["id"])
                     fetched.append(rec)
@@ -186,7 +209,10 @@ def run_c07(case):
             except BaseException as ex:
                 o["res"] = exn_name(ex)
                 o["msg"] = str(ex)[:100]
-            o["names"] = names()
+            if case.get("names") == "count":
+                o["names_n"] = len(names())      # (long histories: how many names, not 1000+ texts after every call)
+            else:
+                o["names"] = names()
             out.append(o)
     finally:
         if scratch:
